@@ -122,6 +122,28 @@ func ChildKeyFunc(phone string) (string, bool) {
 	return phone, true
 }
 
+// WBody: a command body of exactly n bytes that starts with the marker (as much of it as fits); the rest is
+// escape-dense (0x7e / 0x7d alternating: every byte doubles on the wire) or plain.  1023 is the largest body a
+// frame can carry (10-bit length).
+func WBody(marker []byte, n int, dense bool) []byte {
+	b := make([]byte, n)
+	for i := range b {
+		switch {
+		case i < len(marker):
+			b[i] = marker[i]
+		case dense && i%2 == 0:
+			b[i] = 0x7e
+		case dense:
+			b[i] = 0x7d
+		default:
+			b[i] = byte(i % 251)
+		}
+	}
+	return b
+}
+
+var WBodyLens = []int{0, 1, 2, 1000, 1022, 1023}
+
 var emptyKeyMu sync.Mutex // one connection at a time can own the key ""
 
 func locBody() []byte { // 28-byte basic location information, 2024-10-01 12:00:00
@@ -961,7 +983,7 @@ func (r *wrun) check(h *WHist) {
 
 // ---------------------------------------------------------------- scenario generators
 
-var WKinds = []string{"emptykey-close", "nohandler", "garbage-close", "reissue", "reissue-close", "stall", "stall-close", "frag", "default0", "flood-close", "burst", "order", "late", "dup", "unknown", "bad", "never", "mixed", "attr", "notmo", "prejoin", "wrap",
+var WKinds = []string{"bodylen", "emptykey-close", "nohandler", "garbage-close", "reissue", "reissue-close", "stall", "stall-close", "frag", "default0", "flood-close", "burst", "order", "late", "dup", "unknown", "bad", "never", "mixed", "attr", "notmo", "prejoin", "wrap",
 	"close-idle", "close-queued", "close-outstanding", "close-afterresp", "close-timer", "close-early", "rst-outstanding"}
 
 func ms(n int) time.Duration { return time.Duration(n) * time.Millisecond }
@@ -981,6 +1003,11 @@ func GenW(kind string, seed int64) *WScn {
 		cmd := WCmds[rng.Intn(len(WCmds))]
 		if rng.Intn(5) == 0 { // a command id without an entry in the handler table
 			cmd = WCmdsNoHandler[rng.Intn(len(WCmdsNoHandler))]
+		}
+		if rng.Intn(6) == 0 { // a body at or near the maximum a frame can carry (the marker stays in front)
+			n := []int{1000, 1022, 1023}[rng.Intn(3)]
+			dense := rng.Intn(2) == 0
+			return &WCall{Cmd: cmd, Body: WBody([]byte{0xC0 | byte(i), byte(seed), byte(rng.Intn(256))}, n, dense), Timeout: to, Start: ms(rng.Intn(8))}
 		}
 		return &WCall{Cmd: cmd, Body: []byte{0xC0 | byte(i), byte(seed), byte(rng.Intn(256))}, Timeout: to, Start: ms(rng.Intn(8))}
 	}
@@ -1188,6 +1215,19 @@ func GenW(kind string, seed int64) *WScn {
 		}
 		sc.CloseTime = ms(10 + rng.Intn(40))
 		sc.RST = kind == "rst-outstanding"
+	case "bodylen": // command bodies of 0, 1, 2, 1000, 1022 and 1023 bytes (the maximum), plain and escape-dense, all answered;
+		// the commands of one scenario have different ids, so that a frame is its call's even when the body is empty
+		pool := append(append([]uint16{}, WCmds...), WCmdsNoHandler...)
+		rng.Shuffle(len(pool), func(a, b int) { pool[a], pool[b] = pool[b], pool[a] })
+		k = 2 + rng.Intn(4)
+		for i := 0; i < k; i++ {
+			c := mk(i, ms(400))
+			c.Cmd = pool[i]
+			c.Body = WBody([]byte{0xC0 | byte(i), byte(seed), byte(rng.Intn(256))}, WBodyLens[rng.Intn(len(WBodyLens))], rng.Intn(2) == 0)
+			sc.Calls = append(sc.Calls, c)
+			sc.Acts = append(sc.Acts, WAct{Kind: "delay", Delay: ms(rng.Intn(20)), Probe: true})
+		}
+		beats(rng.Intn(2), 20)
 	case "nohandler": // only commands without a handler entry: never answered (timeout), answered, outstanding at the disconnect
 		k = 1 + rng.Intn(4)
 		for i := 0; i < k; i++ {
